@@ -24,6 +24,7 @@ EXPLANATION = (
     "one branch per alternative are unfiltered; that every non-branching path constraint has a reviewed "
     "shape; and that the branch conditions of splits are syntactic complements. It does not decide that "
     "the union of path conditions covers the input space (values)."
+    ' Also evaluated here: the jump-destination scanner rules of C19 (a JUMPDEST the scanner loses is a feasible target that is never explored).'
 )
 ASSUMPTIONS = [
     "z3 simplify() and is_false()/is_true() are sound",
